@@ -40,6 +40,8 @@ type c15Case struct {
 	Level    string            `json:"level,omitempty"` // process | check
 	Doc      int               `json:"doc,omitempty"`      // discovery: index into world.OddDiscoveryDocs()
 	DocName  string            `json:"doc_name,omitempty"`
+	CancelAt int               `json:"cancel_at,omitempty"`   // cancel: environment call of the check at which the caller gives up
+	CancelHow string           `json:"cancel_how,omitempty"`  // cancel (before the call) | cancel-after (after its effect)
 }
 
 // panicSite extracts the innermost frame inside the repository's own packages from a stack dump.
@@ -184,6 +186,10 @@ func c15RunRequest(c c15Case) c15Outcome {
 
 // c15ViaCheck sends the request through ExtAuthZFilter.Check with the world's store; trigger rules present.
 func c15ViaCheck(w *world.World, req *envoy.CheckRequest) (res world.Result) {
+	return c15ViaCheckCtx(w, req, false)
+}
+
+func c15ViaCheckCtx(w *world.World, req *envoy.CheckRequest, cancellable bool) (res world.Result) {
 	cfg := &configv1.Config{
 		Chains: []*configv1.FilterChain{{Name: "c", Filters: []*configv1.Filter{{Type: &configv1.Filter_Oidc{Oidc: w.Cfg}}}}},
 		TriggerRules: []*configv1.TriggerRule{{ExcludedPaths: []*configv1.StringMatch{{MatchType: &configv1.StringMatch_Prefix{Prefix: "/public"}}}}},
@@ -196,7 +202,14 @@ func c15ViaCheck(w *world.World, req *envoy.CheckRequest) (res world.Result) {
 			res = world.Result{Panic: fmt.Sprint(rec), Body: string(buf)}
 		}
 	}()
-	resp, err := f.Check(context.Background(), req)
+	ctx := context.Background()
+	if cancellable {
+		var cancel context.CancelFunc
+		ctx, cancel = context.WithCancel(ctx)
+		defer cancel()
+		w.Env.Cancel = cancel
+	}
+	resp, err := f.Check(ctx, req)
 	if err != nil {
 		return world.Result{Err: err.Error()}
 	}
@@ -450,8 +463,32 @@ func c15RunCase(c c15Case) c15Outcome {
 		return c15RunStore(c)
 	case "discovery":
 		return c15RunDiscovery(c)
+	case "cancel":
+		return c15RunCancel(c)
 	}
 	panic("unknown group")
+}
+
+// ---- group 6: the caller gives up ----
+
+// c15RunCancel: the context of the check is cancelled at environment call CancelAt (before it / after its effect) -
+// Envoy's ext_authz time-out fired, the client went away. The check must still end in a verdict or an error.
+func c15RunCancel(c c15Case) c15Outcome {
+	w := world.New(world.Spec{Store: c.Store, Forward: true, Logout: true})
+	defer w.Close()
+	sid := c15Prepare(w, c.Pre)
+	path := "/"
+	if c.Pre == "pending" {
+		path = c15CallbackPath(w)
+	}
+	faults := map[int]string{c.CancelAt: c.CancelHow}
+	if c.Level == "check" {
+		req := w.Envoy(world.Req{Path: path, Cookie: sid})
+		w.Env.Faults = faults
+		w.IdP.Mode = world.Honest
+		return c15Judge(c15ViaCheckCtx(w, req, true), "check")
+	}
+	return c15Judge(w.Do(world.Req{Path: path, Cookie: sid}, world.Plan{Faults: faults}), "process")
 }
 
 // ---- group 5: discovery documents ----
@@ -473,6 +510,8 @@ func c15Class(c c15Case) string {
 	switch c.Group {
 	case "discovery":
 		return "discovery " + c.DocName
+	case "cancel":
+		return fmt.Sprintf("cancel %s@%d pre=%s level=%s store=%s", c.CancelHow, c.CancelAt, c.Pre, c.Level, c.Store)
 	case "request":
 		return fmt.Sprintf("request shape=%s cookie=%s path=%s", c.Shape, c15Abbrev(c.Cookie), c15Abbrev(c.Path))
 	case "token-answer":
@@ -598,6 +637,18 @@ func c15Cases(tier string) []c15Case {
 			cs = append(cs, c15Case{Group: "store", Pre: pre, StoreMod: "redis:" + m, Store: "redis"})
 		}
 	}
+	// (6) the caller gives up at any environment call of the check
+	for _, lvl := range []string{"process", "check"} {
+		for _, st := range []string{"memory", "redis"} {
+			for _, pre := range []string{"none", "pending", "fresh", "expired"} {
+				for k := 0; k < 8; k++ {
+					for _, how := range []string{"cancel", "cancel-after"} {
+						cs = append(cs, c15Case{Group: "cancel", Level: lvl, Store: st, Pre: pre, CancelAt: k, CancelHow: how})
+					}
+				}
+			}
+		}
+	}
 	// (5) discovery documents
 	for k, d := range world.OddDiscoveryDocs() {
 		cs = append(cs, c15Case{Group: "discovery", Doc: k, DocName: d.Name})
@@ -606,7 +657,7 @@ func c15Cases(tier string) []c15Case {
 }
 
 func c15Run(run *ev.Run) {
-	run.Rule = "deviation-bounded grammars: (1) CheckRequest shapes x cookies x hosts x paths in 4 session pre-states, through Process and through ExtAuthZFilter.Check; (2) token-endpoint answers on the login and refresh paths: statuses x raw bodies, and objects whose members deviate from the honest default singly and in pairs (triples in thorough), incl. validly signed ID tokens with claims of unexpected type, each followed by two more requests; (3) key-source documents and a failing key lookup; (4) odd store answers (Redis hash fields missing/garbage/wrong type; spy answers nil/nil, value+error); (5) discovery documents with one member odd (endpoints the URL parser rejects, relative, empty, with query/fragment, non-strings) or odd as a whole; everything once with the no-op loggers and once with log_level all:debug; oracle: recover() - no panic, verdict well-formed; class = distinct input class"
+	run.Rule = "deviation-bounded grammars: (1) CheckRequest shapes x cookies x hosts x paths in 4 session pre-states, through Process and through ExtAuthZFilter.Check; (2) token-endpoint answers on the login and refresh paths: statuses x raw bodies, and objects whose members deviate from the honest default singly and in pairs (triples in thorough), incl. validly signed ID tokens with claims of unexpected type, each followed by two more requests; (3) key-source documents and a failing key lookup; (4) odd store answers (Redis hash fields missing/garbage/wrong type; spy answers nil/nil, value+error); (6) the caller giving up (context cancelled) at every environment call of a check, before it or after its effect, in 4 session pre-states, both stores, through Process and through Check; (5) discovery documents with one member odd (endpoints the URL parser rejects, relative, empty, with query/fragment, non-strings) or odd as a whole; everything once with the no-op loggers and once with log_level all:debug; oracle: recover() - no panic, verdict well-formed; class = distinct input class"
 	run.Assumptions = []string{"coverage-guided mutation (fuzzing) is a different family and not claimed", "1 MiB is the largest body"}
 	cases := c15Cases(run.Tier)
 	var evals int64
@@ -701,6 +752,8 @@ func c15SigClass(c c15Case) string {
 		return "jwks"
 	case "discovery":
 		return "discovery:" + c.DocName
+	case "cancel":
+		return fmt.Sprintf("cancel:%s@%d pre=%s", c.CancelHow, c.CancelAt, c.Pre)
 	}
 	return "store:" + c.StoreMod
 }
